@@ -114,6 +114,13 @@ def check_case(res, idxs, doc, key, perms=None):
             }
             report = vd.get_failures_string()
             frac = vd.frac_rules_tested if terms else None
+            # H flavour: the same result object read again, in another order, says the same
+            again = (vd.get_failures_string(), vd.num_rules_tested, vd.num_failures, vd.is_valid,
+                     [(rt.is_valid, rt.tested, rt.num_failures, [tuple(f.path) for f in rt.failures]) for rt in vd.rule_tests])
+            if again != (report, obs["nt"], obs["nf"], obs["valid"], obs["rts"]):
+                res.violation("reread-differs", "reading the same validation result a second time gives different answers", pcase,
+                              observed=again, expected=(report, obs["nt"], obs["nf"], obs["valid"], obs["rts"]))
+                return
         except BaseException as e:
             res.violation("raises:%s" % type(e).__name__, "validating raised %r" % (e,), pcase, observed=repr(e))
             return
